@@ -561,12 +561,78 @@ def check_runs(case):
             "sample": dict(case, molecules=len(inst), atoms_out=exp_n)}
 
 
+# ------------------------------------------------------------------ an output whose atom count needs six digits
+def bigout_cases(tier, seed):
+    sizes = [1000] if tier != "thorough" else [1000, 999, 1001]
+    return [{"end_atoms": n, "molecules": 100, "seed": int(seed) + i} for i, n in enumerate(sizes)], True
+
+
+def check_bigout(case):
+    """Few input molecules, a large end-resolution molecule: 99 900 / 100 000 / 100 100 written atoms (the count is filled
+    in on close and no longer fits five digits)."""
+    rng = np.random.default_rng(case["seed"])
+    ne = case["end_atoms"]
+    S = {"name": "BIG", "edges": [[0, 1], [1, 2]], "residues": [["BGS", 1, ["C1", "C2", "C3"]]],
+         "coords": [[0, 0, 0], [0.4, 0.1, 0], [0.7, 0.4, 0.2]]}
+    epos = np.cumsum(rng.normal(0, 0.05, (ne, 3)), axis=0) + [0.35, 0.2, 0.1]
+    E = {"name": "BIG", "edges": [[i, i + 1] for i in range(ne - 1)], "residues": [["BGE", 1, ["A%d" % (i % 9000) for i in range(ne)]]],
+         "coords": np.round(epos, 3).tolist()}
+    W = {"name": "SOL", "residues": [["SOL", 1, ["OW"]]], "coords": [[0, 0, 0]]}
+    records, inst = [], []
+    for m in range(case["molecules"]):
+        shift = np.round(rng.uniform(0, 50, 3), 3)
+        coords = np.round(np.array(S["coords"]) @ gen.random_rotation(rng).T + shift, 3)
+        for k, an in enumerate(S["residues"][0][2]):
+            records.append((m + 1, "BGS", an, len(records) + 1) + tuple(float(c) for c in coords[k]))
+        inst.append(coords)
+        if m % 10 == 0:
+            records.append((m + 1000, "SOL", "OW", len(records) + 1, 1.0, 2.0, 3.0))
+    gro = env.fresh_path(".gro")
+    indep.write_gro(gro, "few molecules, many atoms out", records, [50.0, 50.0, 50.0])
+    from vlib.build import write_spec_itp
+    man = lib("manager", Manager.from_files, gro, write_spec_itp(S))
+    lib("end", man.add_end_molecule, build_molecule(E))
+    np.random.seed(case["seed"] % (2 ** 32))
+    lib("maps", man.calculate_exchange_maps, 0.6)
+    out = env.fresh_path(".gro")
+    lib("extrapolate", man.extrapolate_system, out)
+    exp_n = ne * case["molecules"]
+    with open(out, "rb") as f:
+        raw = f.read().split(b"\n")
+    widths = set(len(l) for l in raw[2:2 + exp_n])
+    if len(widths) != 1:
+        raise PropertyViolation("output-format", "%d atoms written: atom lines have byte lengths %r (header line %r)"
+                                % (exp_n, sorted(widths), raw[1][:20]), cls="output-format:line-lengths")
+    res = read_output(out)
+    recs = res["records"]
+    if len(recs) != exp_n or res["natoms"] != exp_n:
+        raise PropertyViolation("atom-count", "%d atoms written (header %r), expected %d" % (len(recs), res["natoms"], exp_n))
+    for k in list(range(0, 5)) + list(range(99990, min(exp_n, 100012))) + [exp_n - 1]:
+        want = k + 1
+        if want <= 99999 and recs[k][3] != want or not 0 <= recs[k][3] <= 99999:
+            raise PropertyViolation("atom-numbers", "atom %d carries number %d" % (want, recs[k][3]))
+    emap = man.molecule_correspondence["BIG"].exchange_map
+    for m in (0, 1, case["molecules"] // 2, case["molecules"] - 1):
+        mol = build_molecule(S, coords=inst[m], resids=[m + 1])
+        exp = positions(emap(mol))
+        got = np.array([r[4:7] for r in recs[m * ne:(m + 1) * ne]], float)
+        if not np.abs(got - exp).max() <= HALF:
+            raise PropertyViolation("block-coordinates", "molecule %d of the large output differs from the exchange map by %.3e"
+                                    % (m, np.abs(got - exp).max()))
+        if set(r[0] for r in recs[m * ne:(m + 1) * ne]) != {m + 1}:
+            raise PropertyViolation("block-resids", "molecule %d of the large output: residue numbers %r" % (m, sorted(set(r[0] for r in recs[m * ne:(m + 1) * ne]))[:4]))
+    return {"units": (case["molecules"], case["molecules"]), "classes": ["atoms-out:%d" % exp_n],
+            "sample": dict(case, atoms_out=exp_n)}
+
+
 SUBCHECKS = [
     Sub("generated", check, strategy=lambda tier: system_case(tier), quick=960, thorough=18000,
         min_share={"aligned": 0.12, "small-start": 0.1, "box:triclinic": 0.08}),
     Sub("shipped", check_shipped, enumerate=shipped_cases, note="shipped BMIM/BF4 box, three configurations"),
     Sub("runs", check_runs, enumerate=run_cases,
         note="a multi-residue species in uninterrupted runs of 257 / 513 (quick) and 255..2049 (thorough) molecules"),
+    Sub("bigout", check_bigout, enumerate=bigout_cases,
+        note="100 input molecules mapped to a 1000-atom molecule each: 100 000 written atoms (six-digit count on close)"),
     Sub("large", check_large, enumerate=large_cases, tiers=("thorough",),
         note="one system of 30000 molecules / >100000 written atoms: atom numbers beyond five digits"),
 ]
